@@ -25,7 +25,7 @@ class PipelineCheck:
     LANGS = core.LANGS
     MAX_DEPTH = (1, 7)
     ROUNDS = (0, 1, 1, 2, 3)
-    BUDGET = 3_000_000
+    BUDGET = 1_500_000
     TRANSLATE = True
     TIMER_FAULT_RATE = 0.3
 
@@ -86,7 +86,13 @@ class PipelineCheck:
         run = pipeline.PipelineRun(sim, plan['config'], obs, translate=self.TRANSLATE)
         self.before_run(run, sim, plan)
         run.run()
-        violations, extra = self.judge(run, obs, sim, plan)
+        try:
+            violations, extra = self.judge(run, obs, sim, plan)
+        except core.SimBudget:
+            # harness-side work (translations, monitors) exhausted the deterministic
+            # budget: inconclusive run, never a verdict
+            run.status = 'budget'
+            violations, extra = [], {}
         rec = {
             'status': run.status,
             'violations': violations,
